@@ -392,6 +392,7 @@ func checkC13(c *Ctx, r *Report) {
 	getterSameField(c, r, "C13.R3.timeout-getters", []string{"Server.getReadTimeout", "Server.getWriteTimeout"}, "a server that sets only the other timeout gets the zero value for this one: no write deadline is armed, and one client that stops reading blocks a handler, and Shutdown with it, for ever")
 	deadlineWriters(c, r, "C13.R3.deadline-writers")
 	drainChannelCaptured(c, r, "C13.R1.drain-channel-captured")
+	onceUnlockOnly(c, r, "C13.R2.once-unlock-only")
 }
 
 func fnDisplay(f *ssa.Function) string {
